@@ -3,6 +3,7 @@ CONSTANTS
   MaxParams = 3
   Shapes = {1,2}
   Rich = TRUE
+  WithNone = FALSE
   SecondStep = TRUE
 INVARIANT InputScoped
 INVARIANT MachineIsOperator
